@@ -19,18 +19,70 @@ class Obj:
         return self.s
 
 
+ROUTES = ["render", "unicode_encode", "context_bytes", "context_str", "def", "def_args", "def_unicode", "lookup_def",
+          "module", "include", "inherit", "namespace", "lookup_kw", "file", "file_moddir"]
+T_DEF = '<%def name="d()">${x}</%def><%def name="e(y)">${y}</%def>never rendered'
+TMP = {"dir": None, "n": 0}
+
+
+def render_route(route, cs, mode, s):
+    """The text s rendered to bytes with output_encoding=cs, encoding_errors=mode through one entry point."""
+    from mako import util
+    from mako.lookup import TemplateLookup
+    from mako.runtime import Context
+    from mako.template import ModuleTemplate, Template
+    kw = dict(output_encoding=cs, encoding_errors=mode)
+    if route == "render":
+        return Template("${x}", **kw).render(x=s)
+    if route == "unicode_encode":
+        return Template("${x}", **kw).render_unicode(x=s).encode(cs, mode)
+    if route == "context_bytes":
+        buf = util.FastEncodingBuffer(encoding=cs, errors=mode)
+        Template("${x}", **kw).render_context(Context(buf, x=s))
+        return buf.getvalue()
+    if route == "context_str":
+        buf = util.FastEncodingBuffer()
+        Template("${x}", **kw).render_context(Context(buf, x=s))
+        return buf.getvalue().encode(cs, mode)
+    if route == "def":
+        return Template(T_DEF, **kw).get_def("d").render(x=s)
+    if route == "def_args":
+        return Template(T_DEF, **kw).get_def("e").render(s)
+    if route == "def_unicode":
+        return Template(T_DEF, **kw).get_def("d").render_unicode(x=s).encode(cs, mode)
+    if route == "lookup_def":
+        lk = TemplateLookup(**kw)
+        lk.put_string("/t", T_DEF)
+        return lk.get_template("/t").get_def("e").render(y=s)
+    if route == "module":
+        return ModuleTemplate(Template("${x}").module, **kw).render(x=s)
+    if route in ("include", "inherit", "namespace"):
+        lk = TemplateLookup()                 # the parts come from a lookup WITHOUT encoding options: the top's apply
+        lk.put_string("/inc", "${x}")
+        lk.put_string("/base", "${self.body()}")
+        lk.put_string("/ns", T_DEF)
+        text = {"include": '<%include file="/inc"/>', "inherit": '<%inherit file="/base"/>${x}',
+                "namespace": '<%namespace name="n" file="/ns"/>${n.d()}'}[route]
+        return Template(text, lookup=lk, uri="/top", **kw).render(x=s)
+    if route == "lookup_kw":
+        lk = TemplateLookup(**kw)
+        lk.put_string("t", "${x}")
+        return lk.get_template("t").render(x=s)
+    if route in ("file", "file_moddir"):
+        md = None
+        if route == "file_moddir":
+            md = os.path.join(TMP["dir"], "m%d" % os.getpid())
+        lk = TemplateLookup([os.path.join(TMP["dir"], "src")], module_directory=md, **kw)
+        return lk.get_template("f.html").render(x=s)
+    raise ValueError(route)
+
+
 def run_op(op, via_lookup):
     from mako import filters
-    from mako.lookup import TemplateLookup
-    from mako.template import Template
     s = op["text"]
     k = op["k"]
     if k == "render":
-        if via_lookup:
-            lk = TemplateLookup(output_encoding=op["a"], encoding_errors=op["b"])
-            lk.put_string("t", "${x}")
-            return lk.get_template("t").render(x=s)
-        return Template("${x}", output_encoding=op["a"], encoding_errors=op["b"]).render(x=s)
+        return render_route(op.get("r") or ("lookup_kw" if via_lookup else "render"), op["a"], op["b"], s)
     if k == "encode":
         return s.encode(op["a"], op["b"])
     f = op["a"]
@@ -68,7 +120,14 @@ def main():
     import mako.lookup  # noqa: F401
     import mako.template  # noqa: F401
     import mako.util  # noqa: F401
+    import mako.runtime  # noqa: F401
+    import shutil
+    import tempfile
     sessions = json.load(sys.stdin)
+    TMP["dir"] = tempfile.mkdtemp(prefix="c10s-", dir=sys.argv[1] if len(sys.argv) > 1 else None)
+    os.makedirs(os.path.join(TMP["dir"], "src"))
+    with open(os.path.join(TMP["dir"], "src", "f.html"), "w") as f:
+        f.write("${x}")
     out = []
     for sess in sessions:
         r, w = os.pipe()
@@ -93,6 +152,7 @@ def main():
         os.close(r)
         os.waitpid(pid, 0)
         out.append({"id": sess["id"], "res": json.loads(data) if data else None})
+    shutil.rmtree(TMP["dir"], ignore_errors=True)
     json.dump({"mako": mako.util.__file__, "out": out}, sys.stdout)
 
 
